@@ -740,7 +740,7 @@ Proof.
       destruct (Hv v Hin) as [E _]. unfold g. unfold s, s01 in E. lia.
     + rewrite all_present_amap. intros E. apply map_eq_nil in E. contradiction.
     + intros v Hin. rewrite all_present_amap in Hin. apply in_map_iff in Hin as (u & <- & Hu).
-      destruct (Hv u Hu). unfold g. simpl. split; [lia|exact I].
+      destruct (Hv u Hu). unfold g. split; [lia|exact I].
     + intros E. rewrite rec_amap, (Hrm E). reflexivity.
   - apply is_relabel_false in R. set (n := length ids) in *.
     assert (Eids : ids = zseq s n).
@@ -800,4 +800,62 @@ Example ex_ids_hyp : first_col [[Some 4; Some 1; Some 10; Some 125]; [Some 1; So
                      = Some [4; 1; 125] /\ NoDup [4; 1; 125].
 Proof.
   split; [reflexivity|]. repeat constructor; simpl; intuition discriminate.
+Qed.
+
+(* ------------------------------------------------------------------------- *)
+(* 8. edge and face cells with remove_empty_columns                            *)
+(* ------------------------------------------------------------------------- *)
+Lemma nth_some_in (l : row) i v : nth i l None = Some v -> In (Some v) l.
+Proof.
+  intros H. destruct (Nat.lt_ge_cases i (length l)) as [L|L].
+  - rewrite <- H. apply nth_In. exact L.
+  - rewrite nth_overflow in H by exact L. discriminate.
+Qed.
+
+(* on a rectangular array only columns without any value are removed *)
+Lemma rec_present_eq w a b v : rect w a -> remove_empty_columns a = Ok b ->
+  (In v (all_present b) <-> In v (all_present a)).
+Proof.
+  intros Hr H. split; [apply rec_present_sub; exact H|].
+  apply rec_shape in H as [->|(j0 & j1 & Hj & _ & _ & Hall & ->)]; [auto|].
+  rewrite !all_present_in. intros (r & Hra & Hv).
+  apply In_nth with (d := None) in Hv as (j & Hjl & Hnth).
+  unfold rect in Hr. rewrite Forall_forall in Hr.
+  assert (Hw : width a = w).
+  { unfold width. destruct a as [|r0 t]; [contradiction|]. apply Hr. left; reflexivity. }
+  assert (Hu : col_used a j = true).
+  { unfold col_used. apply existsb_exists. exists r. split; [exact Hra|]. rewrite Hnth. reflexivity. }
+  rewrite (Hr r Hra) in Hjl. rewrite <- Hw in Hjl. specialize (Hall j Hu Hjl).
+  exists (firstn (S j1 - j0) (skipn j0 r)). split; [unfold cut; apply (in_map (fun r : row => firstn (S j1 - j0) (skipn j0 r))); exact Hra|].
+  apply (nth_some_in _ (j - j0)). rewrite nth_firstn by lia. rewrite nth_skipn.
+  replace (j0 + (j - j0))%nat with j by lia. exact Hnth.
+Qed.
+
+Lemma rect_amap f w a : rect w a -> rect w (amap f a).
+Proof.
+  unfold rect, amap. rewrite !Forall_forall. intros H r Hr. apply in_map_iff in Hr as (r0 & <- & Hr0).
+  rewrite map_length. apply H. exact Hr0.
+Qed.
+
+Lemma normalise_cells_idem_rm s rm w a b : s = 0 \/ s = 1 -> rect w a ->
+  normalise_cells s rm a = Ok b -> normalise_cells s rm b = Ok b.
+Proof.
+  intros Hs Hr H. destruct rm; [|apply (normalise_cells_idem s a b Hs H)].
+  unfold normalise_cells, rbind in H.
+  destruct (remove_empty_columns (rank_compress a)) as [d|e] eqn:Ed; [|discriminate].
+  pose (k := length (sort_u (all_present a))).
+  assert (Pd : forall x, In x (all_present d) <-> 0 <= x < Z.of_nat k).
+  { intros x. rewrite (rec_present_eq w (rank_compress a) d x); [apply ranks_range| |exact Ed].
+    unfold rank_compress. apply rect_amap. exact Hr. }
+  pose proof (rec_idem _ _ Ed) as Hdd.
+  unfold normalise_cells, rbind.
+  destruct Hs as [->| ->]; [change (0 =? 0) with true in *|change (1 =? 0) with false in *]; cbv iota in *;
+    injection H as <-.
+  - rewrite (rank_canonical 0 k d) by (intros x; rewrite Pd; lia).
+    rewrite rec_amap, Hdd. simpl. f_equal. rewrite <- (amap_id d) at 2. apply amap_ext_in. intros; lia.
+  - rewrite (rank_canonical 1 k (amap (fun v => v + 1) d)).
+    + rewrite rec_amap, rec_amap, Hdd. simpl. f_equal. rewrite !amap_amap. apply amap_ext_in. intros; lia.
+    + intros x. rewrite all_present_amap, in_map_iff. split.
+      * intros (v & <- & Hv). apply Pd in Hv. lia.
+      * intros Hx. exists (x - 1). split; [lia|]. apply Pd. lia.
 Qed.
